@@ -22,7 +22,9 @@ def parseW (s : String) : Option WOp :=
   | "ld" => some .ld
   | "cv" => some .cv
   | "rd" => some .rd
+  | "rv" => some .rd     -- the void overload of read (the client reports what its functor saw)
   | "md" => some .md
+  | "mv" => some .md     -- the value-returning overload of modify (the client checks the returned value itself)
   | "st" => v.toInt?.map .st
   | "as" => v.toInt?.map .as
   | "xc" => v.toInt?.map .xc
@@ -63,6 +65,7 @@ def parse : List String → Option (Option Ev)
   | ["hma", a, b] => match slotOf a, slotOf b with
       | some a, some b => some (some (.hbegin (.movea a b)))
       | _, _ => none
+  | ["hfree"] => some none   -- client-side ownership marker for the python oracle (stutter)
   | ["he"] => some (some (.hend none))
   | ["he", b] => (boolOf b).map (fun b => some (.hend (some b)))
   | ["prd", "P", v] => v.toInt?.map (fun v => some (.rd v))
@@ -122,10 +125,10 @@ def edges : List String :=
    "wCalled/lk-as-X", "wCalled/lk-md-X", "wCalled/lk-xc-X", "wCalled/lk-ce-X",
    "whole/rd-ld", "whole/rd-cv", "whole/rd-rd", "whole/rd-md", "whole/rd-xc", "whole/rd-ce",
    "whole/wr-st", "whole/wr-as", "whole/wr-md", "whole/wr-xc", "whole/wr-ce",
-   "whole/uth-ld", "whole/uth-cv", "whole/uth-rd", "whole/uth-st", "whole/uth-as", "whole/uth-md", "whole/uth-xc", "whole/uth-ce",
+   "whole/uth-ld", "whole/uth-cv", "whole/uth-rd", "whole/uth-st", "whole/uth-as", "whole/uth-md", "whole/uth-ce",
    "whole/rel-ld", "whole/rel-cv", "whole/rel-rd", "whole/rel-st", "whole/rel-as", "whole/rel-md", "whole/rel-xc", "whole/rel-ce",
    "whole/rel-thrown-ld", "whole/rel-thrown-cv", "whole/rel-thrown-rd", "whole/rel-thrown-st", "whole/rel-thrown-as",
-   "whole/rel-thrown-md", "whole/rel-thrown-xc", "whole/rel-thrown-ce"]
+   "whole/rel-thrown-md", "whole/rel-thrown-ce"]
 
 def comp : Comp :=
   { name := "lockfam", St := St, Ev := Ev,
